@@ -20,7 +20,7 @@ func init() { drivers["C02"] = driver{"C02", runC02} }
 // traffic is delivered, and every replica must hold every acknowledged write.
 func runC02(r *Run) error {
 	defer closeEnv()
-	scens := 6
+	scens := 14
 	if r.Tier == "thorough" {
 		scens = 80
 	}
@@ -107,11 +107,26 @@ func runC02(r *Run) error {
 				}
 				settle("write")
 				r.Count("write")
-			case c < 60:
+			case c < 52:
 				if k := net.PendingLen(); k > 0 {
 					net.DeliverPending(r.Rng.Intn(k), false) // any order: reordering
 					settle("deliver")
 					r.Count("deliver")
+				}
+			case c < 60:
+				// the announcement gets through but the partition hits before the blocks can be fetched
+				if k := net.PendingLen(); k > 0 {
+					a, b := r.Rng.Intn(n), r.Rng.Intn(n)
+					for a2 := 0; a2 < n; a2++ {
+						for b2 := a2 + 1; b2 < n; b2++ {
+							if (a2 == a || b2 == b) && a != b {
+								net.CutBlocks(idx(a2), idx(b2))
+							}
+						}
+					}
+					net.DeliverPending(r.Rng.Intn(k), false)
+					settle("deliver-unfetchable")
+					r.Count("deliver-unfetchable")
 				}
 			case c < 66:
 				if k := net.PendingLen(); k > 0 {
